@@ -9,7 +9,7 @@ RULE = ('encode: every n with |n| <= W exhaustively for the four codes plus rand
         'decode: every bit string up to a length bound as input at every position, plus random long strings; '
         'streams of mixed codes with random prefix/suffix; truncated codewords; codeword + trailing bits. '
         'non-trivial = the case exercises a loop iteration (n != 0 / at least one leading zero) ; distinct by (op, arguments)')
-TRUSTED_BASE = ['translator tools/gen/golomb.py (bridged: GenGolomb = Golomb by reflexivity)']
+TRUSTED_BASE = ['hand model coq/Golomb.v of ue2bitstore/se2bitstore/uie2bitstore/sie2bitstore and Bits._readue/_readse/_readuie/_readsie, tied by vm_compute correspondence']
 ASSUMPTIONS = ['bitarray slicing/indexing and int2ba behave as Prims.v models them (L0 corr.)',
                'msb0 mode (in lsb0 mode the codes are refused; checked by the oracle only)']
 CODES = ['ue', 'se', 'uie', 'sie']
@@ -65,6 +65,13 @@ def gen_cases(rng, tier):
             e = rng.randrange(1, 200)
             n = rng.randrange(1 << e) * rng.choice([1, -1])
             yield {'op': 'enc', 'code': code, 'n': n, 'route': rng.choice(ROUTES)}
+        # every power-of-two boundary (the codeword grows there): 2^k - 2 .. 2^k + 1, both signs for the signed codes
+        ks = list(range(1, 71)) + [100, 127, 128, 129, 199, 200] if tier == 'quick' else list(range(1, 260))
+        for k in ks:
+            for d in (-2, -1, 0, 1):
+                n = (1 << k) + d
+                if code in ('se', 'sie') and (k + d) % 2: n = -n
+                yield {'op': 'enc', 'code': code, 'n': n, 'route': ROUTES[(k + d) % len(ROUTES)]}
         for n in [-1, -2, -(1 << 70)]:
             yield {'op': 'enc', 'code': code, 'n': n, 'route': 'kw', 'lsb0': False}
         yield {'op': 'enc', 'code': code, 'n': 5, 'route': 'kw', 'lsb0': True}
